@@ -207,6 +207,25 @@ func CheckReplica(db raftio.ILogDB, r *Rep, tr Traits) *Mismatch {
 	if m := CheckMeta(db, r, tr); m != nil {
 		return m
 	}
+	if r.Removed && r.GoneLast > 0 {
+		// RemoveNodeData removes all data of the node: nothing of the removed
+		// life may be readable, now or after a reopen
+		if m := safely("iterate-removed", func() *Mismatch {
+			ents, _, err := db.IterateEntries(nil, 0, r.Shard, r.Replica, 1, r.GoneLast+1, math.MaxUint64)
+			if err != nil {
+				return mm("removed-replica-iterate-error", "%s IterateEntries(1,%d) on the removed replica failed: %v",
+					r.ID(), r.GoneLast+1, err)
+			}
+			if len(ents) > 0 {
+				return mm("removed-replica-entries-resurrected", "%s was removed with RemoveNodeData, IterateEntries(1,%d) "+
+					"still returns %d entries (%d..%d, term %d)", r.ID(), r.GoneLast+1, len(ents), ents[0].Index,
+					ents[len(ents)-1].Index, ents[0].Term)
+			}
+			return nil
+		}); m != nil {
+			return m
+		}
+	}
 	if r.Last > r.Marker && len(r.Log) > 0 {
 		low := r.Marker + 1
 		if low < r.First {
